@@ -20,6 +20,7 @@ case "$which" in
   groups)  test=TestStandinGroups;  obl="syntax.parser#bounded-standin-groups";;
   stack)   test=TestStandinStack;   obl="regexp2.executeDefault#bounded-standin-stack";;
   class)   test=TestStandinClass;   obl="syntax.scanCharSet#bounded-standin-class";;
+  history) test=TestStandinHistory; obl="regexp2.Regexp#bounded-standin-history";;
   *) echo "ENGINE-ERROR unknown stand-in $which"; exit 2;;
 esac
 export STANDIN_KNOWN=$(python3 - "$HERE/known_findings.json" "$prop" "$obl" <<'PY'
@@ -68,6 +69,10 @@ if which=="mirror":
     rec={"function":"executeDefault (right-to-left arms against left-to-right arms), with the parser/reducer/writer in front of it",
      "bound":"%d patterns from an abstract syntax with a mirror operation (items = atom a b [ab] [^a] . \\w - \\d [^ab] \\W \\s [a-] 1 (?:a|-) [\\w-[a]] x quantifier none * + ? *? +? {2} {1,2} ??; 1-2 items, 3-item sequences and alternations over %s, literals before/after an item, quantified groups (also item+literal bodies), named captures (nested, alternated, looped), atomic groups, ^ $ \\A \\z \\b \\B \\G, the four lookarounds, named backreferences); options None, IgnoreCase, Multiline%s; every text over {a,b,-,1} (over {a,-,\\n} for Multiline) of length 0..%d plus 13 longer texts; every start offset; both directions of the pair"%(pats,"20 items" if lvl>=2 else "12 items",", Singleline|Multiline, IgnoreCase|Multiline, ExplicitCapture" if lvl>=2 else "",n),
      "checks":"find(mirror(P), RightToLeft, reverse(text), n-s) is the mirror image of find(P, text, s): both fail or index' = n-index-length, same length, every capture of every named group mirrored, in the same order"}
+elif which=="history":
+    rec={"function":"state kept between calls on one Regexp (pooled runners and their recycled Match, the quick program, the replacement cache), as far as the Replace/Split drivers and the interpreter touch it",
+     "bound":"%d patterns (%s of the replace stand-in's patterns), options None, RightToLeft, IgnoreCase; %s texts over {a,b,-} of length 0..3 plus 5 longer ones; nine public calls (MatchString, FindStringMatch, FindAllStringIndex, Replace, MatchRunes, FindRunesMatch+FindNextMatch, Split, ReplaceFunc, FindAllRunesIndex) in an order that changes from text to text"%(pats,"all" if lvl>=2 else "a fifth","all" if lvl>=2 else "a third of the"),
+     "checks":"every call on the used Regexp returns what the same call returns on a Regexp compiled fresh for that call"}
 elif which=="class":
     rec={"function":"the class parser (scanCharSet, shorthand escapes, negation, subtraction) and the IgnoreCase closure of classes, up to the CharSet the proofs of C16 start from",
      "bound":"%d class expressions: one or two items out of a z A 0 _ - U+00E9 U+007F a-c A-C x-z 0-5 space-/ U+0000-a \\d \\D \\w \\W \\s \\S (%s two-item combinations), in default mode also \\p{Ll} \\p{Lu} \\P{L} \\p{Nd} \\P{Nd}, in RE2 mode also eight POSIX names (plain and negated), plain and negated, without and with one of six subtracted classes (one of them with its own subtraction); shapes ^C$, ^C+$, x?C; options None, IgnoreCase, ECMAScript, IgnoreCase|ECMAScript, RightToLeft, RE2, RE2|IgnoreCase (subtraction where the syntax has it; complements and categories left out under IgnoreCase, where the case mapping of U+0130 and U+212A has no agreed meaning); every rune of U+0000..U+007F and fourteen runes above"%(pats,"all" if lvl>=2 else "half of the"),
